@@ -19,6 +19,7 @@ Definition m_valid_rotation := LowEntropy.valid_rotation.
 Definition m_lowbits := lowbits.
 Definition m_rotate_mask := LowEntropy.rotate_mask.
 Definition m_is_le_proto := LowEntropy.is_le_proto.
+Definition m_nonce_inc := Wire.nonce_inc.
 Definition m_wire_is_session := Wire.is_session.
 Definition m_wire_is_data := Wire.is_data.
 Definition m_wire_is_ack := Wire.is_ack.
@@ -32,6 +33,7 @@ Extraction "model.ml"
   xl_protocol_isSessionProtocol xl_protocol_isLowEntropyProtocol xl_protocol_isDataProtocol xl_protocol_isAckProtocol
   xl_protocol_isDataAckProtocol xl_protocol_isValidLowEntropyRotation xl_protocol_lowBits xl_protocol_rotateLowEntropyMask
   xl_protocol_buildLowEntropyParams xl_protocol_lowEntropyEncodedPayloadLen xl_protocol_maxFragmentSize
+  xl_cipher_increaseNonce m_nonce_inc
   m_pdep_go m_pext_go m_repeat32 m_max_fragment_internal m_max_padding m_max_fragment m_le_encoded_len m_src_bytes m_mode_params
   m_valid_rotation m_lowbits m_rotate_mask m_is_le_proto
   m_wire_is_session m_wire_is_data m_wire_is_ack m_wire_is_data_ack m_wire_is_low_entropy.
